@@ -42,6 +42,13 @@ def points(tier: str) -> List[Dict[str, Any]]:
                     pts.append({"kind": "peer", "mix": mix, "ttls": ttls, "allow": allow, "tc": tc, "c2": c2, "chain": 0})
             for chain in (1, 2, 3):
                 pts.append({"kind": "peer", "mix": mix, "ttls": ttls, "allow": allow, "tc": None, "c2": None, "chain": chain})
+    # a description object that is not fresh: its records were already built (memoised) by an earlier use, or it was
+    # registered and withdrawn before; and a TTL given to the registration call instead of the description
+    for mix, allow, tc in itertools.product(mixes, (False, True), (None, 100)):
+        for used in ("built", "reregistered"):
+            for ttl_arg in (None, 300):
+                pts.append({"kind": "peer", "mix": mix, "ttls": "default", "allow": allow, "tc": tc, "c2": None, "chain": 0,
+                            "used": used, "ttl_arg": ttl_arg})
     for delay in (1, 50, 100, 150):
         for allow in (False, True):
             for mix in ("v4", "dual"):
@@ -152,8 +159,20 @@ def run_point(p: Dict[str, Any], verbose: bool = False) -> Tuple[Optional[Dict[s
             w.advance(2000)
         a = w.new_zeroconf(name="registrant")
         result: Dict[str, Any] = {}
-        t0 = w.now_ms + 1000
         info = make_info(desc)
+        if p.get("used") == "built":
+            info.dns_pointer(), info.dns_service(), info.dns_text(), info.dns_addresses(), info.dns_nsec([1, 28])
+            info.get_address_and_nsec_records()
+        elif p.get("used") == "reregistered":
+            w.run_coro(_reg_plain(a, info))
+            w.advance(2000)
+            w.run_coro(_unreg_plain(a, info))
+            w.advance(15_000)  # the looped-back goodbyes have expired the host's own cached copies
+        t0 = w.now_ms + 1000
+        reg_kw: Dict[str, Any] = {}
+        if p.get("ttl_arg"):
+            reg_kw["ttl"] = p["ttl_arg"]
+            desc = Svc(desc.type, desc.name, desc.server, desc.port, desc.text, desc.v4, desc.v6, p["ttl_arg"], p["ttl_arg"])
 
         async def reg(i: Any, **kw: Any) -> None:
             try:
@@ -211,7 +230,7 @@ def run_point(p: Dict[str, Any], verbose: bool = False) -> Tuple[Optional[Dict[s
                     else:
                         final_name = n2
                         cycles.append((d_t, n2, None))
-            task = w.spawn(reg(info, allow_name_change=p["allow"]))
+            task = w.spawn(reg(info, allow_name_change=p["allow"], **reg_kw))
         elif p["kind"] == "instance":
             w.advance_to_ms(t0)
             # A's first probe reaches B after `delay`, B's reply reaches A after another `delay`
@@ -284,6 +303,11 @@ def run_point(p: Dict[str, Any], verbose: bool = False) -> Tuple[Optional[Dict[s
         verdict = {"what": f"C09 {p}: {problems[0][:600]}", "replay": {"problems": problems[:5]},
                    "signature": {"check": problems[0].split(":")[0]}}
     return verdict, obs, w.loop.handles_run
+
+
+async def _unreg_plain(host: Any, info: Any) -> None:
+    task = await host.zc.async_unregister_service(info)
+    await task
 
 
 async def _reg_plain(host: Any, info: Any) -> None:
